@@ -24,8 +24,8 @@ open Mcp.Str Mcp.Json Mcp.Content Mcp.Escape
 def normResult (r : CallToolResult) : CallToolResult :=
   { r with
     content := match r.content with
-      | some [] => none
-      | c => c,
+      | none => none
+      | some cs => sliceOf cs,
     structured := nullAsNil r.structured }
 
 private theorem isEmpty_false {s : Text} (h : (!s.isEmpty) = true) : s ≠ [] := by
@@ -49,7 +49,7 @@ private theorem parseAnnotations_encode (a : Annotations) :
     by_cases h : Num.isZero ⟨pm, pe⟩ = true
     · obtain ⟨h1, h2⟩ := hz h
       subst h1 h2
-      simp [parseAnnotations, optField, Num.isZero, lookup]
+      simp [parseAnnotations, optField, Num.isZero]
     · cases pe with
       | zero => simp [parseAnnotations, optField, h, lookup, Num.toJson]
       | succ e => simp [parseAnnotations, optField, h, lookup, Num.toJson]
@@ -78,7 +78,7 @@ private theorem parseAnnotated_annField (pre : Obj) (a : Option Annotations) (hp
       · next hk => simp [hk] at hpre
       · next hk => simp only [hk, if_false] at hpre; exact ih hpre
   cases a with
-  | none => simp [parseAnnotated, extractMap, hl, annField]
+  | none => simp [parseAnnotated, extractMap, annField, hpre]
   | some a =>
     obtain ⟨m, hm, hp⟩ := parseAnnotations_encode a
     simp [parseAnnotated, extractMap, hl, annField, lookup, hm, hp]
@@ -130,8 +130,7 @@ private theorem parseContents_encode (cs : List Content) : parseContents (cs.map
   | nil => rfl
   | cons c rest ih =>
     simp only [List.map_cons, encodeContent_obj, parseContents, C02_content_roundtrip c]
-    rw [show rest.map (fun c => Json.obj (contentObj c)) = rest.map encodeContent from by simp [encodeContent_obj]] at *
-    simp [ih]
+    rw [ih]
 
 /-! ## tool results -/
 
@@ -143,14 +142,13 @@ theorem C02_roundtrip (r : CallToolResult) : parseResult (encodeResult r) = .ok 
   cases mm <;> cases content <;> cases ie <;> cases st <;>
     simp [parseResult, encodeResult, asMapTarget, metaField, structuredField, optField, sliceJson, extractMap, lookup,
       normResult, parseContents_encode]
-  all_goals (rename_i cs; cases cs <;> rfl)
 
 /-- the decoder is still a checker: a text item without a `text` member (or with a non-string one) is refused … -/
-theorem C02_missing_text_rejected (rest : Obj) (h : lookupStr? rest t!"text" = none) (hty : ∀ v, (t!"type", v) ∉ rest) :
+theorem C02_missing_text_rejected (rest : Obj) (h : lookupStr? rest t!"text" = none) :
     parseContent ((t!"type", .str tagText) :: rest) = .error .textMissing := by
-  have : lookupStr? ((t!"type", Json.str tagText) :: rest) t!"text" = none := by
+  have : lookupStr? ((t!"type", Json.str t!"text") :: rest) t!"text" = none := by
     simpa [lookupStr?, lookup] using h
-  simp [parseContent, extractString, lookup, tagText, this]
+  simp only [parseContent, extractString, lookup_cons_eq, tagText, if_true, this]
 
 /-- … and an unknown type tag still is -/
 theorem C02_unknown_type_rejected :
